@@ -192,9 +192,29 @@ def do_entropy(args):
     for m in facts.GENSALT_METHODS + [None]:
         for entry in ("rn", "ra", "st"):
             lines.append(rt.gensalt_line(entry, gen.TAG[m] if m else None, 0, None, 0, 192))
-            meta.append((m or "NULL", entry))
+            meta.append((m or "NULL", entry, "ok"))
+        # requests the method refuses after the bytes were drawn: a count outside
+        # the range, an output buffer too small for the method's setting
+        fm = m or "yescrypt"
+        bad = next((c for c in (99, 3, 1) if not facts.count_accepted(fm, c)), None)
+        if bad is not None:
+            for entry in ("rn", "ra"):
+                lines.append(rt.gensalt_line(entry, gen.TAG[m] if m else None, bad, None, 0, 192))
+                meta.append((m or "NULL", entry, "bad-count"))
+        for osz in (3, 5, 12):
+            lines.append(rt.gensalt_line("rn", gen.TAG[m] if m else None, 0, None, 0, osz))
+            meta.append((m or "NULL", "rn", "small-buffer"))
     rows = rt.run_resilient(w, setup, lines)
-    for ln, (m, entry), r in zip(lines, meta, rows):
+    for ln, (m, entry, kind), r in zip(lines, meta, rows):
+        if isinstance(r, dict) and kind != "ok":
+            acc.count("evaluations")
+            acc.count("entropy_checks")
+            acc.cls(("entropy", m, entry, kind))
+            if r.get("gc") == "1" and r.get("er") not in ("0",):
+                acc.violation("%s/entropy-not-erased/%s" % (PID, m),
+                              "%s of %s drawn random bytes still readable after a REFUSED request (%s, result %s errno %s)" % (
+                                  r.get("er"), r.get("gn"), kind, r["r"], r["e"]), rt.replay_obj(fl, setup + [ln]))
+            continue
         acc.count("evaluations")
         if not isinstance(r, dict):
             acc.inconc("entropy death/timeout %s" % m)
